@@ -109,8 +109,8 @@ func runNative(repo, hdir, workDir string, names []string, cases []nativeCase, r
 	ents, _ := os.ReadDir(hdir)
 	for _, ent := range ents {
 		n := ent.Name()
-		if !strings.HasSuffix(n, ".go") || n == "api_sym.go" {
-			continue
+		if !strings.HasSuffix(n, ".go") || strings.HasSuffix(n, "_sym.go") {
+			continue // *_sym.go: the symbolic engine's side of a two-sided helper (its native side is in native/)
 		}
 		replace[filepath.Join(repo, "zz_verif_"+n)] = filepath.Join(hdir, n)
 	}
